@@ -89,6 +89,7 @@ class Evaluator:
         self.cls_name = cls_name
         self.qdepth = 0
         self.bound = []
+        self.last_trigger = None
 
     # -- helpers --------------------------------------------------------
     def oblige(self, path, kind, site, goal, exc=None):
@@ -420,10 +421,13 @@ class Evaluator:
             c = c.f['graph']
         k = c.ty[0]
         if k == 'seq':
+            self.last_trigger = lambda q: Select(S.seq_arr(c), q)
             return T_INT, (lambda q: self.bind_target(tgt, S.seq_get(c, q))), (lambda q: And(0 <= q, q < S.seq_n(c)))
         if k == 'set':
+            self.last_trigger = lambda q: Select(c.t, q)
             return c.ty[1], (lambda q: {tgt.id: V(c.ty[1], q)}), (lambda q: Select(c.t, q))
         if k == 'dict':
+            self.last_trigger = lambda q: Select(S.dict_dom(c), q)
             return c.ty[1], (lambda q: {tgt.id: V(c.ty[1], q)}), (lambda q: S.dict_has(c, q))
         raise Unsupported('comprehension over %r' % (c.ty,))
 
@@ -442,22 +446,36 @@ class Evaluator:
         if not gens:
             return body_fn()
         g = gens[0]
+        self.last_trigger = None
         qt, bind, dom = self.domain_of(g, path, spec)
+        trig = self.last_trigger
         q = z3.FreshConst(S.sort_of(qt), 'q')
         saved = dict(path.env)
         path.env.update(bind(q))
         self.qdepth += 1
         self.bound.append(q)
+        n0 = len(path.guards)
         try:
-            conds = [dom(q)] + [self.ev_bool(c, path, spec) for c in g.ifs]
+            # obligations raised while evaluating the filters / the body hold under the generator's domain
+            conds = [dom(q)]
+            path.guards.append(conds[0])
+            for c in g.ifs:
+                cv = self.ev_bool(c, path, spec)
+                conds.append(cv)
+                path.guards.append(cv)
             inner = self.quantify(gens[1:], body_fn, path, spec, universal)
         finally:
+            del path.guards[n0:]
             self.qdepth -= 1
             self.bound.pop()
         path.env.clear()
         path.env.update(saved)
         if universal:
-            return ForAll([q], Implies(And(*conds), inner))
+            body = Implies(And(*conds), inner)
+            if trig is not None:
+                # trigger on the element term of the iterated collection (sequence position / set membership)
+                return S.forall_p([q], body, [trig(q)])
+            return ForAll([q], body)
         return Exists([q], And(*conds + [inner]))
 
     def ev_SetComp(self, node, path, spec):
@@ -468,18 +486,48 @@ class Evaluator:
 
         def body():
             return self.ev(node.elt, path, spec).t == y
-        self.qdepth += 1
-        try:
-            f = self.quantify(node.generators, body, path, spec, False)
-        finally:
-            self.qdepth -= 1
+        f = None
+        g0 = node.generators[0]
+        if len(node.generators) == 1 and isinstance(node.elt, ast.Name) and isinstance(g0.target, ast.Name) and node.elt.id == g0.target.id:
+            # {x for x in S if c(x)} over a set or dict: membership is S[y] and c(y), no existential needed
+            qt, bind, dom = self.domain_of(g0, path, spec)
+            if qt == probe and qt != T_INT:
+                path.env.update(bind(y))
+                self.qdepth += 1
+                self.bound.append(y)
+                n0 = len(path.guards)
+                try:
+                    conds = [dom(y)]
+                    path.guards.append(conds[0])
+                    for c in g0.ifs:
+                        cv = self.ev_bool(c, path, spec)
+                        conds.append(cv)
+                        path.guards.append(cv)
+                    f = And(*conds)
+                finally:
+                    del path.guards[n0:]
+                    self.qdepth -= 1
+                    self.bound.pop()
+                    path.env.clear()
+                    path.env.update(saved)
+        if f is None:
+            self.qdepth += 1
+            try:
+                f = self.quantify(node.generators, body, path, spec, False)
+            finally:
+                self.qdepth -= 1
         path.env.clear()
         path.env.update(saved)
         if self.eng.in_axiom or not self.is_closed(f):
             return V(('set', probe), z3.Lambda([y], f))
         # top level: a named set with its defining axiom (friendlier to the solver than a lambda);
         # the same text over the same state denotes the same constant
-        key = self.state_key(node, path)
+        # semantic key: the membership formula itself over a canonical variable (z3 terms are hash-consed, so two
+        # comprehensions with structurally identical bodies - e.g. the code's and the contract's - share one constant)
+        canon = z3.Const('canon!y!' + S.mangle(probe), S.sort_of(probe))
+        fc = z3.substitute(f, (y, canon))
+        key = ('setbody', fc.get_id())
+        self.eng.keepalive.append(fc)
         hit = self.eng.set_cache.get(key)
         if hit is not None:
             sc, ax = hit
@@ -630,6 +678,7 @@ class Engine:
         self.result_defined = False
         self.intensional_eq = False
         self.labels = {}                # id of a hypothesis formula -> clause name (invariants, cuts)
+        self.keepalive = []
         self.set_cache = {}
         self.assumptions_used = set()
         self.loop_counter = {}
@@ -804,6 +853,7 @@ class Engine:
         path.assume(ForAll([k], Implies(And(0 <= k, k < S.seq_n(r)), Select(s.t, Select(S.seq_arr(r), k))),
                            patterns=[Select(S.seq_arr(r), k)]))
         path.assume(ForAll([x], Implies(Select(s.t, x), S.seq_mem(r, x))))
+        path.assume(S.seq_n(r) == S.set_card(s))     # a duplicate-free enumeration of S has |S| elements
         self.assumptions_used.add('sets are finite (list(S) exists)')
         return r
 
@@ -867,12 +917,9 @@ class Engine:
                 path.env.clear(); path.env.update(saved)
                 return r
             if it is not None and it.ty[0] in ('set', 'dict') and ident:
-                et = it.ty[1]
-                x = z3.FreshConst(S.sort_of(et), 'cx')
-                path.env[g.target.id] = V(et, x)
-                cond = And(*([self.to_set(it).t[x]] + [ev.ev_bool(c, path, spec) for c in g.ifs]))
-                path.env.clear(); path.env.update(saved)
-                return self.list_of_set(V(('set', et), z3.Lambda([x], cond)), path)
+                # [x for x in S if c(x)]: a duplicate-free enumeration (arbitrary order) of the named set {x for x in S if c(x)}
+                sc = ev.ev_SetComp(ast.SetComp(elt=node.elt, generators=node.generators), path, spec)
+                return self.list_of_set(sc, path)
         finally:
             path.env.clear(); path.env.update(saved)
         raise Unsupported('list comprehension form: ' + ast.unparse(node))
@@ -1134,6 +1181,18 @@ class Engine:
                 t = cat(cat(cat(cat(S.name_lit('__scfg_').t, kind.t), S.name_lit('_var_').t), S.str_of_int(idx.t)), S.name_lit('__').t)
             else:
                 t = cat(cat(kind.t, S.name_lit('_block_' if name == 'block_name' else '_region_').t), S.str_of_int(idx.t))
+            # injectivity in (kind, index) for index >= 0: lemma L-inj, discharged by cvc5 on the real string theory
+            # (fin/name_lemmas.py) for the shapes read from the source, under A-str
+            kq = z3.Const('bn!k', S.sort_of(T_NAME))
+            iq = z3.Int('bn!i')
+            if name == 'var_name':
+                pt = cat(cat(cat(cat(S.name_lit('__scfg_').t, kq), S.name_lit('_var_').t), S.str_of_int(iq)), S.name_lit('__').t)
+            else:
+                pt = cat(cat(kq, S.name_lit('_block_' if name == 'block_name' else '_region_').t), S.str_of_int(iq))
+            kind_of = ufun('kind_of!' + name, S.sort_of(T_NAME), S.sort_of(T_NAME))
+            idx_of = ufun('idx_of!' + name, S.sort_of(T_NAME), z3.IntSort())
+            self.add_axiom(('name-inj', name), ForAll([kq, iq], Implies(iq >= 0, And(kind_of(pt) == kq, idx_of(pt) == iq)), patterns=[pt]))
+            self.assumptions_used.add('lemma L-inj (%s is injective in (kind, index)): proved by cvc5 in fin/name_lemmas.py under A-str' % name)
             return V(T_NAME, t)
         if name == 'rind':
             return self.rind(ev, node, path, spec)
@@ -1473,12 +1532,22 @@ class Engine:
                 v = vals[n]
                 if isinstance(v, V) and v.ty[0] in ('block', 'seq') and not z3.is_const(v.t) and self.term_size(v.t) > 3:
                     cst = S.fresh(v.ty, 'arg_' + n)
-                    path.assume(cst.t == v.t)
+                    ln = S.seq_n(v) if v.ty[0] == 'seq' else None
+                    if ln is not None and z3.is_int_value(ln) and ln.as_long() <= 8:
+                        # literal list: length and elements only (a constant-array equality hurts e-matching);
+                        # the ground element terms give quantifiers over its positions something to match
+                        path.assume(S.seq_n(cst) == ln)
+                        for i_ in range(ln.as_long()):
+                            path.assume(Select(S.seq_arr(cst), i_) == z3.simplify(Select(S.seq_arr(v), i_)))
+                    else:
+                        path.assume(cst.t == v.t)
                     vals[n] = cst
         for n in names:
             if n not in vals:
                 raise Unsupported('missing argument %s for %s' % (n, c.qual))
             want = S.parse_type(c.params[n])
+            if isinstance(vals[n], tuple) and vals[n][0] == 'emptyseq' and want[0] == 'seq':
+                vals[n] = S.seq_from_list(want[1], [])
             if isinstance(vals[n], V) and want[0] != 'obj' and vals[n].ty != want:
                 vals[n] = self.coerce_arg(vals[n], want, ev, path)
         return vals, nodes
@@ -1581,7 +1650,14 @@ class Engine:
         for cn, text in c.ensures.items():
             if cn in done:
                 continue
-            path.assume(self.spec_formula(ast.parse(text, mode='eval').body, env, path, cm))
+            # frame clauses talk about the callee's havoced post-state, whose representation is ours to choose:
+            # entries that are Python-equal to pre-state entries share their representation
+            self.intensional_eq = cn in c.frame_clauses
+            try:
+                f_ = path.assume(self.spec_formula(ast.parse(text, mode='eval').body, env, path, cm))
+            finally:
+                self.intensional_eq = False
+            self.labels[f_.get_id()] = cn      # callee postconditions can be selected by proof hints
         # ---- write back modified arguments
         for loc in c.modifies:
             root = loc.split('.')[0]
@@ -1834,6 +1910,8 @@ class Engine:
             return [(path, None)]   # assert isinstance(offset, int) on a sorted value: typing fact
         g = ev.ev_bool(st.test, path, False)
         self.add_obligation(path, 'noraise', 'assert ' + ast.unparse(st.test), g, 'AssertionError')
+        if z3.is_false(z3.simplify(g)):
+            return []      # `assert False`: the obligation says the point is unreachable; no path continues
         return [(path, None)]
 
     def st_Raise(self, st, path):
